@@ -728,3 +728,15 @@ fn for_each_varblocks(
         }
     }
 }
+
+/// Verification hook (`--cfg jxl_oxide_verif`): the generic 2-D DCT, whichever implementation
+/// the build selects for the renderer.
+#[cfg(jxl_oxide_verif)]
+pub(crate) fn generic_dct_2d_dir(io: &mut MutableSubgrid<'_, f32>, forward: bool) {
+    let direction = if forward {
+        dct_common::DctDirection::Forward
+    } else {
+        dct_common::DctDirection::Inverse
+    };
+    generic::dct_2d(io, direction)
+}
